@@ -9,7 +9,7 @@ def AllPub (ctx : Ctx) : Prop := (∀ e ∈ ctx.funcs, e.2.pub = true) ∧ (∀ 
 theorem varFold_pub : ∀ (vs : List Var) (a : Ctx × Bool), (∀ e ∈ a.1.vars, e.2.pub = true) →
     ∀ e ∈ (vs.foldl (fun (a : Ctx × Bool) v =>
       let e := (assocGet a.1.vars v.name).isSome
-      (if !e && v.pub then { a.1 with vars := assocSet a.1.vars v.name v } else a.1, e)) a).1.vars, e.2.pub = true := by
+      (if !e && v.pub then { a.1 with vars := assocSet a.1.vars v.name v } else a.1, a.2 && e)) a).1.vars, e.2.pub = true := by
   intro vs
   induction vs with
   | nil => intro a h; exact h
@@ -33,7 +33,7 @@ theorem regStep_pub (acc : Ctx × List Stmt) (st : Stmt) (h : AllPub acc.1) : Al
   cases st with
   | varDef vars vals =>
     simp only [regStep]
-    exact ⟨by rw [varFold_funcs]; exact h.1, varFold_pub vars (ctx, false) h.2⟩
+    exact ⟨by rw [varFold_funcs]; exact h.1, varFold_pub vars (ctx, true) h.2⟩
   | funcDef name pub rets params body =>
     simp only [regStep]
     split
